@@ -20,6 +20,7 @@ import (
 	"fmt"
 	"io"
 	"regexp"
+	"strings"
 
 	"github.com/Eyevinn/mp4ff/mp4"
 
@@ -39,14 +40,15 @@ func numAPI(tier string) int {
 func init() {
 	runner.Register(&runner.Prop{
 		ID: "C02",
-		Rule: "case = one workload item -> all structures it yields. Items 0..A-1 (A = 10 000 quick / 300 000 thorough): one generated API history (gen/frag: 1..3 tracks, 1..2 segments, 1..3 fragments each with 0..8 samples per op, single/multi-track, full/interval/metadata-only mdat, emsg/prft/free/skip/uuid/unknown children, hostile or tame values) -> the InitSegment, every Fragment built fresh from its spec with and without OptimizeTrun, every MediaSegment with 0..3 sidx boxes and with/without styp, and the whole assembled file decoded by DecodeFile/DecodeFileSR in box-tree and segment mode; plus, per history, one member of the codec-configuration family (work.PickRecipe/FromRecipe, a self-contained recipe string kept in the witness): an esds made by CreateEsdsBox with a decoder configuration whose length is swept through windows below 2^7, 2^14 and (few) 2^21, wide enough that the payload of each nested descriptor (DecoderSpecificInfo, DecoderConfigDescriptor, ES_Descriptor) passes limit-2..limit+1 of the base-128 size field, or with the ES_Descriptor flag lattice (streamDependence/URL/OCRstream, all 8 combinations, priority bits, URL lengths 0/1/23/255, the dependent public fields set with the flag and also without it) at small sizes and at the one-digit limit, alone and inside mp4a (CreateAudioSampleEntryBox, with/without btrt), stsd or an init segment; or a Dec3Box literal (there is no constructor) with 1..8 independent substreams with/without dependent ones, NumIndSub left 0 or set to len-1, alone, inside ec-3, through TrakBox.SetEC3Descriptor, and as a decoded one-substream box with appended substreams. " +
-			"Remaining items: the shared C01 input list (corpus seeds, hand-built boxes of every registered type and version/flag shape, gentle mutants, bit flips, field values, N1/N2/N3, nesting, sequences) decoded by DecodeBox, DecodeBoxSR, DecodeFile, DecodeFileSR (fragmented files in both encode modes). " +
+		Rule: "case = one workload item -> all structures it yields. Items 0..A-1 (A = 10 000 quick / 300 000 thorough): one generated API history (gen/frag: 1..3 tracks, 1..2 segments, 1..3 fragments each with 0..8 samples per op, single/multi-track, full/interval/metadata-only mdat, emsg/prft/free/skip/uuid/unknown children, hostile or tame values) -> the InitSegment, every Fragment built fresh from its spec with and without OptimizeTrun, every MediaSegment with 0..3 sidx boxes and with/without styp, and the whole assembled file decoded by DecodeFile/DecodeFileSR in box-tree and segment mode, one media segment and one fragment of that decoded file as structures of their own (work.PartsOf: MediaSegment.Encode / Fragment.Encode on decoded structures, 1 in 4 with trun optimisation), and the same file with the data addressing of its fragments rewritten on the byte level (gen/frag.Readdress, compared sample by sample with the input through the independent reader ref/frag before use: tfhd.base_data_offset with a first trun that has NO data_offset field, base_data_offset at the moof / file start with data_offsets relative to it, default-base-is-moof clear with the implied bases of 8.8.7.1, later runs without data_offset) decoded through one file path: the file in box-tree mode, segment mode and segment mode with optimisation, one media segment, one fragment (the witness holds the rewritten bytes); one member of the sidx family (work.PickSidxRecipe, recipe string in the witness: Version 0/1 x EarliestPresentationTime and FirstOffset from {0, 1000, 2^31+5, 2^32-1, 2^32, 2^32+3003, 2^40+7, 2^64-16} x 0..3 references with ordinary values or with the bit fields at their limits x made by CreateSidx plus public fields, struct literal, or decoded box whose public fields are then set x alone, in an API-built MediaSegment with a CreateFragment fragment, or in a File: decoded styp+sidx+moof+mdat whose sidx fields are set or whose sidx is replaced, or a File assembled through File.AddChild, in box-tree and segment mode); plus, per history, one member of the codec-configuration family (work.PickRecipe/FromRecipe, a self-contained recipe string kept in the witness): an esds made by CreateEsdsBox with a decoder configuration whose length is swept through windows below 2^7, 2^14 and (few) 2^21, wide enough that the payload of each nested descriptor (DecoderSpecificInfo, DecoderConfigDescriptor, ES_Descriptor) passes limit-2..limit+1 of the base-128 size field, or with the ES_Descriptor flag lattice (streamDependence/URL/OCRstream, all 8 combinations, priority bits, URL lengths 0/1/23/255, the dependent public fields set with the flag and also without it) at small sizes and at the one-digit limit, alone and inside mp4a (CreateAudioSampleEntryBox, with/without btrt), stsd or an init segment; or a Dec3Box literal (there is no constructor) with 1..8 independent substreams with/without dependent ones, NumIndSub left 0 or set to len-1, alone, inside ec-3, through TrakBox.SetEC3Descriptor, and as a decoded one-substream box with appended substreams. " +
+			"Remaining items: the shared C01 input list (corpus seeds, hand-built boxes of every registered type and version/flag shape, gentle mutants, bit flips, field values, N1/N2/N3, nesting, sequences; since round 7 with crafted fragment sequences over the lattice base-data-offset-present x default-base-is-moof x data-offset-present of a single-trun fragment, with/without styp, two fragments / two segments, 64-bit mdat header, and up to 16 corpus files rewritten by gen/frag.Readdress) decoded by DecodeBox, DecodeBoxSR, DecodeFile, DecodeFileSR (fragmented files in both encode modes, and one MediaSegment and one Fragment of every decoded fragmented file as structures of their own). " +
 			"Per structure X (fresh instance): s0=Size(); b1=Encode into a buffer; s1=Size(); Info at a PRNG-chosen level into io.Discard; b2=EncodeSW into a FixedSliceWriter of capacity s1+64 and again of capacity exactly s1 (must succeed); 0..2 further Info calls; b3=Encode. Assertions: len(b1)=s1 (minus lazily written mdat payload), s0=s1 unless trun optimisation is on, len(b2)=s1, b3=b1 and second EncodeSW=b2, the reference walker tiles b1 exactly, and for every node of the library tree the node's size field = node.Size() = length of the node encoded on its own = its sub-range of the parent's bytes, children tiling the tail of their parent. " +
-			"Encoders that return an error are outside the property (counted; for decoded structures listed in evidence). Evidence only (census.go, read from the written bytes with a parser of the 14496-1 / TS 102 366 syntax, and from public fields of API objects): descriptor payload sizes at the size-field limits with the number of size digits, ES_Descriptor flag combinations, dec3 substream shapes and NumIndSub against len(EC3Subs). non-trivial = a structure whose Encode succeeded and that contains at least one box; distinct by hash of (kind, b1). evaluations = structures checked.",
+			"Encoders that return an error are outside the property (counted; for decoded structures listed in evidence); but when Encode fails, a fresh instance is handed to EncodeSW with capacity Size()+64 (Encode allocates exactly Size() bytes, so an encoder that writes more than Size() fails there and succeeds here), and if that reports success its length must equal Size(). Evidence only (census.go, read from the written bytes with a parser of the 14496-1 / TS 102 366 syntax, and from public fields of API objects): descriptor payload sizes at the size-field limits with the number of size digits, ES_Descriptor flag combinations, dec3 substream shapes and NumIndSub against len(EC3Subs); for every written fragment with exactly one trun the level it was encoded at and tf_flags/tr_flags (single_trun_fragment_written); Version and size of written sidx boxes and the public 64-bit fields of API sidx boxes against the 32-bit limit (sidx_written, sidx_api_fields); addressing modes produced by Readdress (readdressed_traf). non-trivial = a structure whose Encode succeeded and that contains at least one box; distinct by hash of (kind, b1). evaluations = structures checked.",
 		Assumptions: []string{
 			"MdatBox in lazy mode (SetLazyDataSize / metadata-only fragments): by its documented contract the payload is counted by Size() and written by the caller; the expected length is Size() minus the lazy payload",
 			"File in EncModeSegment writes Init, Sidxs, Segments and Mfra only (documented); the length clause is applied to a segment-mode file only if every top-level child is one of those",
 			"children of every container are laid out at the tail of the container (true for all ISO BMFF containers the library knows)",
+			"a structure whose exported fields are assigned after construction or decode (SidxBox.EarliestPresentationTime/FirstOffset/SidxRefs after CreateSidx, Dec3Box.EC3Subs, EsdsBox flag fields) is 'built through the public API': the library offers no setters for these fields and its own tools and examples assign them",
 		},
 		Setup:    func(env *runner.Env) error { return work.Setup(env) },
 		NumCases: func(env *runner.Env) int { return numAPI(env.Tier) + work.NumInputs(env) },
@@ -81,6 +83,10 @@ func run(c *runner.Ctx, idx int) {
 	for _, s := range work.FromInput(c, in) {
 		check(c, s, nil)
 	}
+	// one media segment and one fragment of a decoded fragmented file, encoded on their own
+	for _, s := range work.PartsOf(c, in) {
+		check(c, s, nil)
+	}
 }
 
 func runHistory(c *runner.Ctx, h *genfrag.History) {
@@ -95,6 +101,50 @@ func runHistory(c *runner.Ctx, h *genfrag.History) {
 			}
 			check(c, s, h)
 		}
+		in := work.Input{Name: "api-built file", Desc: "gen/frag.Build", Gen: "api-file", Data: fb}
+		for _, s := range work.PartsOf(c, in) {
+			check(c, s, h)
+		}
+		readdressed(c, fb)
+	}
+}
+
+// readdressed: the API-built file with the data addressing of its fragments
+// rewritten on the byte level (gen/frag.Readdress: tfhd.base_data_offset, first
+// trun without data_offset, default-base-is-moof clear), decoded through one of
+// the two file paths: the file in box-tree and segment mode, one media segment
+// and one fragment. The witness carries the rewritten bytes.
+func readdressed(c *runner.Ctx, fb []byte) {
+	nb, shapes, err := genfrag.Readdress(fb, c.Rand)
+	if err != nil {
+		c.Count("readdress_not_applicable", 1)
+		c.Seen("readdress_not_applicable", errClass(err))
+		return
+	}
+	c.Count("readdressed_files", 1)
+	few := func(n int) string {
+		if n > 1 {
+			return "N"
+		}
+		return "1"
+	}
+	desc := ""
+	for _, sh := range shapes {
+		c.Seen("readdressed_traf", fmt.Sprintf("%s base=%s default-base-is-moof=%v trafs=%s truns=%s runs-without-data_offset=%s", sh.Mode, sh.Base, sh.DefaultBaseMoof, few(sh.Trafs), few(sh.Truns), map[bool]string{false: "0", true: ">0"}[sh.NoOffsetRuns > 0]))
+		if len(desc) < 300 {
+			desc += fmt.Sprintf("[moof %d traf %d: %s] ", sh.Moof, sh.Traf, sh.Mode)
+		}
+	}
+	in := work.Input{Name: "api-built file, readdressed", Desc: "gen/frag.Build + gen/frag.Readdress " + desc, Gen: "api-file-readdressed", Data: nb}
+	path := work.FilePaths[c.Rand.Intn(len(work.FilePaths))]
+	for _, s := range work.FromInput(c, in) {
+		if s.Kind != "decoded/"+path && !strings.HasPrefix(s.Kind, "decoded/"+path+"/") {
+			continue
+		}
+		check(c, s, nil)
+	}
+	for _, s := range work.PartsOf(c, in) {
+		check(c, s, nil)
 	}
 }
 
@@ -117,7 +167,11 @@ func replay(c *runner.Ctx, raw json.RawMessage) {
 	if err != nil {
 		return
 	}
-	for _, s := range work.FromInput(c, work.Input{Name: "replay", Desc: d.Desc, Gen: "replay", Data: b}) {
+	in := work.Input{Name: "replay", Desc: d.Desc, Gen: "replay", Data: b}
+	for _, s := range work.FromInput(c, in) {
+		check(c, s, nil)
+	}
+	for _, s := range work.PartsOf(c, in) {
 		check(c, s, nil)
 	}
 }
@@ -266,6 +320,21 @@ func check(c *runner.Ctx, s work.Struct, h *genfrag.History) {
 			c.Seen("decoded_structure_reencode_fails(C01)", typ+": "+errClass(e1.Err))
 		} else {
 			c.Seen("api_structure_encode_error", typ+": "+errClass(e1.Err))
+		}
+		// Encode allocates exactly Size() bytes, so an encoder that writes MORE than Size() shows as an
+		// error there; the SliceWriter path with spare capacity then reports success, and the statement
+		// applies to it: the bytes written must equal Size().
+		if y := s.New(); y != nil {
+			if f, ok := y.(*mp4.File); ok && s.SegMode && f.IsFragmented() && !accounted(f) {
+				return
+			}
+			if e := work.EncodeSW(c, y, 64); e.OK() {
+				c.Count("encodesw_ok_where_encode_fails", 1)
+				var sz uint64
+				if pi := c.Guard(func() { sz = y.Size() }); pi == nil && uint64(len(e.Bytes))+work.LazyMdatBytes(y) != sz {
+					k.violation("encodesw-length-where-encode-fails", typ, fmt.Sprintf("Encode fails (%v); EncodeSW into a writer of capacity Size()+64 reports success and wrote %d bytes (+%d lazy) but Size() afterwards is %d", e1.Err, len(e.Bytes), work.LazyMdatBytes(y), sz))
+				}
+			}
 		}
 		return
 	}
